@@ -84,7 +84,7 @@ ATOMS = [1, 2, 3, 8, 9, 10, 11, 12, 33, 100, 1000]
 MAGS = [1e-3, 0.1, 3.0, 3.0, 3.0, 50.0, 50.0, 99.9, 100.1, 999.9, 1000.1, 9999.9, 10000.1, 2e4, 1e5, 3e6]
 TIME_KINDS = ["default", "nonuniform", "nonuniform", "large", "large-fine", "negative", "exp"]
 CELL_KINDS = ["none", "cubic", "ortho", "tric", "tric", "pf-ortho", "pf-tric"]
-NCASES = {"quick": 3600, "thorough": 50000}
+NCASES = {"quick": 10000, "thorough": 50000}
 FLOORS = {"quick": dict({"roundtrip.shape": 600, "roundtrip.xyz": 4500, "roundtrip.time": 2500, "roundtrip.cell": 4000,
                          "independent.layout": 600, "independent.shape": 550, "independent.xyz": 4500, "independent.time": 2500,
                          "independent.cell": 3500, "independent.xtc-header": 200, "independent.step": 120, "independent.dcd-header": 60,
